@@ -613,3 +613,78 @@ Definition remote_rounds (fx : fixes) (lower : bool) (vs : list (list schema)) :
   | [] => []
   | l :: r => let '(rr, g', ls') := round fx 1 lower l (Some fresh_gateway) [] in rr :: rounds_tail fx lower r g' ls'
   end.
+
+(* ====================================================================================================
+   EXTENSION 3 — the feature-gate annotation as a RAW string.
+   The admission plugin (Validate) and the gateway (ClusterInfo.syncFeatureGate) each read
+   annotations["proxy.kubegateway.io/feature-gates"] and hand it to featuregate.Set on a copy of the default
+   gates; the fact [f_gate] of an object is what that parser says about its raw value.
+   [gate_accepts] follows k8s.io/component-base@v0.18.10 featuregate.Set + SetFromMap:
+     for each piece of strings.Split(value, ","): skip the EMPTY piece (length 0 - a blank one is not skipped);
+     strings.SplitN(piece, "=", 2): no "=" -> error; key and value are TrimSpace'd; strconv.ParseBool(value);
+     afterwards every key must be a known feature (the four gateway gates, and AllAlpha / AllBeta which every
+     feature gate knows); no gate is locked to its default.
+   White space = the ASCII white space of unicode.IsSpace (\t \n \v \f \r and blank); the generator stays ASCII.
+   ==================================================================================================== *)
+Definition is_space (a : ascii) : bool :=
+  let n := N_of_ascii a in ((9 <=? n) && (n <=? 13) || (n =? 32))%N.
+Fixpoint ltrim (s : string) : string :=
+  match s with String a r => if is_space a then ltrim r else s | EmptyString => EmptyString end.
+Definition trim_space (s : string) : string := str_rev (ltrim (str_rev (ltrim s))).
+
+(* strings.Split(s, sep) for a one-character separator: always at least one piece *)
+Fixpoint split_aux (sep : ascii) (s : string) (cur : string) : list string :=
+  match s with
+  | EmptyString => [str_rev cur]
+  | String a r => if Ascii.eqb a sep then str_rev cur :: split_aux sep r EmptyString
+                  else split_aux sep r (String a cur)
+  end.
+Definition split_on (sep : ascii) (s : string) : list string := split_aux sep s EmptyString.
+
+(* strings.SplitN(s, "=", 2): None = no "=" *)
+Fixpoint cut_eq_aux (s : string) (cur : string) : option (string * string) :=
+  match s with
+  | EmptyString => None
+  | String a r => if Ascii.eqb a "="%char then Some (str_rev cur, r) else cut_eq_aux r (String a cur)
+  end.
+Definition cut_eq (s : string) : option (string * string) := cut_eq_aux s EmptyString.
+
+(* strconv.ParseBool *)
+Definition parse_bool_ok (v : string) : bool :=
+  str_mem v ["1"; "t"; "T"; "TRUE"; "true"; "True"; "0"; "f"; "F"; "FALSE"; "false"; "False"]%string.
+Definition known_gate (k : string) : bool :=
+  str_mem k ["CloseConnectionWhenIdle"; "DenyAllRequests"; "GlobalRateLimiter"; "Tracing"; "AllAlpha"; "AllBeta"]%string.
+
+Definition piece_ok (p : string) : bool :=
+  match p with
+  | EmptyString => true                                   (* len(s) == 0: continue *)
+  | _ => match cut_eq p with
+         | None => false                                  (* missing bool value *)
+         | Some (k, v) => parse_bool_ok (trim_space v) && known_gate (trim_space k)
+         end
+  end.
+(* featuregate.Set(value) == nil.  (A key that fails ParseBool in one piece and is unknown in another: error either
+   way; keys are only looked up after all pieces parsed, the verdict is the conjunction.) *)
+Definition gate_accepts (value : string) : bool := forallb piece_ok (split_on ","%char value).
+
+(* admission plugin: if cluster.Annotations != nil { fg := annotations[key]; if len(fg) > 0 { copy.Set(fg) != nil -> error } } *)
+Definition admit_gate (raw : option string) : bool :=
+  match raw with
+  | None => true
+  | Some EmptyString => true
+  | Some v => gate_accepts v
+  end.
+(* ClusterInfo.syncFeatureGate: fg := annotations[key] (a nil map reads as ""); len(fg) == 0 -> reset, nil;
+   else gates.Set(fg) *)
+Definition sync_gate (raw : option string) : bool :=
+  let v := match raw with None => EmptyString | Some v => v end in
+  match v with EmptyString => true | _ => gate_accepts v end.
+
+(* the fact of the object *)
+Definition gate_of_raw (raw : option string) : gatefact :=
+  match raw with
+  | None | Some EmptyString => GAbsent
+  | Some v => if gate_accepts v then GOk else GBad
+  end.
+Definition gatefact_eqb (a b : gatefact) : bool :=
+  match a, b with GAbsent, GAbsent | GOk, GOk | GBad, GBad => true | _, _ => false end.
